@@ -47,7 +47,7 @@ import PyhfProofs.Properties.C02_Gen
 namespace Pyhf.Props.C02
 open Pyhf Pyhf.Interp Pyhf.Props.C01
 ''']
-for shape,nb in (('shapeD',2),('shapeE',1)):
+for shape,nb in (('shapeD',2),('shapeE',1),('shapeF',2)):
     g=sig(f'{shape}_bin0'); syms,pars=g[0],g[1]
     hyps=' '.join(f'(_h{x} : 0 < {x})' for x in syms)
     allv=' '.join(syms+pars)
@@ -68,10 +68,59 @@ theorem {shape}_logpdf_eq (lpois : ℝ → ℝ → ℝ) (lnorm : ℝ → ℝ →
     Gen.{shape}_logpdf realPrim lpois lnorm {allv2} = Gen.{shape}_logpdf_ref realPrim lpois lnorm {allv2} := by
   unfold Gen.{shape}_logpdf Gen.{shape}_logpdf_ref
   simp only [C01.lit0, C01.lit1]
-  split_ifs <;> first
-    | (simp (config := {{ maxSteps := 2000000 }}) only [{bins}, C01.lit0, C01.lit1, if_true, if_false, *] <;> first | rfl | (norm_num <;> first | rfl | ring1))
-    | (exfalso; linarith)
+  first
+    | (split_ifs <;> first
+        | (simp (config := {{ maxSteps := 2000000 }}) only [{bins}, C01.lit0, C01.lit1, if_true, if_false, *] <;> first | rfl | (norm_num <;> first | rfl | ring1))
+        | (exfalso; linarith))
+    | (simp only [{bins}, C01.lit0, C01.lit1] <;> first | rfl | (norm_num <;> first | rfl | ring1 | ring_nf))
 ''')
 out1.append('end Pyhf.Props.C01\n'); out2.append('end Pyhf.Props.C02\n')
+# ---- C10_Gen2: batched logpdf / expected_data of shapeF, row by row
+out3=['''import PyhfGen.Model
+import PyhfProofs.Properties.C10_Gen
+/-!
+# C10 (continued) — batched `logpdf` and `expected_data` equal row-by-row evaluation, for what the code computes *now*
+
+Shape F of `PyhfGen/Model.lean` has bin-wise constraints only, so the Poisson-constrained block precedes the Gaussian-constrained one in
+the auxiliary data and the `[normal, poisson]` constraint viewer has to reorder.  `pyhf.Model(spec, batch_size=2)` is constructed and
+`logpdf(rows, data)` — two symbolic parameter rows, **two symbolic data rows** — and `expected_data(rows)` are executed symbolically.
+Each row of either result is proved equal to the unbatched generated function of that row's own parameters and data, for all reals:
+the batched split of the data by the `[main, aux]` and `[normal, poisson]` viewers, the batched gather of the constrained parameters
+and the stitch of the expected auxiliary data address the right row and the right position.
+-/
+namespace Pyhf.Props.C10
+open Pyhf
+''']
+shape='shapeF'
+g=sig(f'{shape}_logpdf'); syms,pars,dv=g[0],g[1],g[2]
+S=' '.join(syms)
+R=' '.join(f'r{t}_{v}' for t in range(2) for v in pars)
+D=' '.join(f'r{t}_{v}' for t in range(2) for v in dv)
+for t in range(2):
+    rp=' '.join(f'r{t}_{v}' for v in pars); rd=' '.join(f'r{t}_{v}' for v in dv)
+    out3.append(f'''/-- {shape}: row {t} of the batched `logpdf` = the unbatched `logpdf` of row {t}'s parameters on row {t}'s data -/
+theorem {shape}_batch_row{t}_logpdf_eq (lpois : ℝ → ℝ → ℝ) (lnorm : ℝ → ℝ → ℝ → ℝ) ({S} {R} {D} : ℝ) :
+    Gen.{shape}_batch_row{t}_logpdf realPrim lpois lnorm {S} {R} {D} = Gen.{shape}_logpdf realPrim lpois lnorm {S} {rp} {rd} := by
+  first | rfl | (unfold Gen.{shape}_batch_row{t}_logpdf Gen.{shape}_logpdf; norm_num <;> ring_nf)
+''')
+    for k in range(len(dv)):
+        out3.append(f'''/-- {shape}: row {t}, entry {k} of the batched `expected_data` = entry {k} of the unbatched one at row {t}'s parameters -/
+theorem {shape}_batch_row{t}_expdata{k}_eq (lpois : ℝ → ℝ → ℝ) (lnorm : ℝ → ℝ → ℝ → ℝ) ({S} {R} {D} : ℝ) :
+    Gen.{shape}_batch_row{t}_expdata{k} realPrim lpois lnorm {S} {R} {D} = Gen.{shape}_expdata{k} realPrim {S} {rp} := by
+  first | rfl | (unfold Gen.{shape}_batch_row{t}_expdata{k} Gen.{shape}_expdata{k}; norm_num <;> ring_nf)
+''')
+k0=len(dv)-len([v for v in dv if v.startswith('a')])
+out3.append(f'''/-- the unbatched expected data of {shape}: the two rates, then — in auxiliary-data order — the Poisson rates `γ·τ` of the uncorrelated-shape
+bins and the means `γ` of the MC-statistical bins -/
+theorem {shape}_expected_data_layout ({S} {' '.join(pars)} : ℝ) :
+    Gen.{shape}_expdata0 realPrim {S} {' '.join(pars)} = Gen.{shape}_bin0 realPrim {S} {' '.join(pars)} ∧
+    Gen.{shape}_expdata1 realPrim {S} {' '.join(pars)} = Gen.{shape}_bin1 realPrim {S} {' '.join(pars)} ∧
+    Gen.{shape}_expdata2 realPrim {S} {' '.join(pars)} = p_uncorr_0 * (b0 ^ (2:ℝ) / u0 ^ (2:ℝ)) ∧
+    Gen.{shape}_expdata3 realPrim {S} {' '.join(pars)} = p_uncorr_1 * (b1 ^ (2:ℝ) / u1 ^ (2:ℝ)) ∧
+    Gen.{shape}_expdata4 realPrim {S} {' '.join(pars)} = p_stat_SR_0 ∧ Gen.{shape}_expdata5 realPrim {S} {' '.join(pars)} = p_stat_SR_1 := by
+  refine ⟨?_, ?_, ?_, ?_, ?_, ?_⟩ <;> first | rfl | (simp only [Gen.{shape}_expdata2, Gen.{shape}_expdata3, realPrim_pow]; norm_num)
+''')
+out3.append('end Pyhf.Props.C10\n')
+open('/verif/lean/PyhfProofs/Properties/C10_Gen2.lean','w').write('\n'.join(out3))
 open('/verif/lean/PyhfProofs/Properties/C01_Gen2.lean','w').write('\n'.join(out1))
 open('/verif/lean/PyhfProofs/Properties/C02_Gen2.lean','w').write('\n'.join(out2))
